@@ -30,7 +30,7 @@ G = srp.HOMEKIT
 USER = "Pair-Setup"
 
 
-def _client(code, salt, a, B_pad):
+def _client(code, salt, a, B_pad, order="salt,B"):
     from aiohomekit.crypto import srp as lib
 
     orig = lib.Srp.__dict__["generate_private_key"]  # the descriptor itself (a staticmethod): what getattr returns would come back as an instance method
@@ -39,8 +39,13 @@ def _client(code, salt, a, B_pad):
         c = lib.SrpClient(USER, code)
     finally:
         lib.Srp.generate_private_key = orig
-    c.set_salt(bytearray(salt))
-    c.set_server_public_key(bytearray(B_pad))
+    # the two values the accessory sends may be handed over in either order, and again (a transport that re-reads M2): the exchange is a
+    # function of (code, salt, a, B), not of the order of the setter calls
+    for step in order.split(","):
+        if step == "salt":
+            c.set_salt(bytearray(salt))
+        else:
+            c.set_server_public_key(bytearray(B_pad))
     return c
 
 
@@ -75,6 +80,16 @@ def case_exchange(p):
         out.append(("proof-differs", {**d, "got": M1[:8], "want": ex.M1_client[:8]}))
     if not ex.server_accepts(A_b, M1):
         out.append(("accessory-rejects-controller-proof", d))
+    for order in ("B,salt", "salt,B,salt", "B,salt,B", "salt,salt,B"):
+        try:
+            c2 = _client(code, salt, a, ex.B_pad, order)
+            got = (bytes(c2.get_public_key_bytes()), bytes(c2.get_proof_bytes()), bytes(c2.get_session_key_bytes()), c2.verify_servers_proof_bytes(ex.M2_server))
+        except Exception as e:  # noqa: BLE001
+            out.append((f"client-raises:{type(e).__name__}:setter-order", {**d, "order": order}))
+            break
+        if got != (ex.A_pad, ex.M1_client, ex.K_client, True):
+            out.append(("values-depend-on-the-order-of-the-setter-calls", {**d, "order": order, "differs": [n for n, g, w in zip(("A", "M1", "K", "accepts-M2"), got, (ex.A_pad, ex.M1_client, ex.K_client, True)) if g != w]}))
+            break
     try:
         ok = c.verify_servers_proof_bytes(ex.M2_server)
     except Exception as e:  # noqa: BLE001
@@ -109,6 +124,21 @@ def case_exchange(p):
             else:
                 continue
             break
+        # near misses: the proof a NON-conformant accessory would compute (leading zero bytes of A, M1 or K dropped before hashing, in every
+        # combination) is not the correct proof and has to be rejected like any other wrong one
+        strip = lambda b_: bytes(b_).lstrip(b"\x00")  # noqa: E731
+        for mask in range(1, 8):
+            parts = [strip(x) if mask >> i & 1 else bytes(x) for i, x in enumerate((ex.A_pad, ex.M1_client, ex.K_client))]
+            wrong = G.H(*parts)
+            if wrong == ex.M2_server:
+                continue
+            try:
+                if c.verify_servers_proof_bytes(wrong):
+                    out.append(("controller-accepts-a-non-conformant-accessory-proof", {**d, "leading_zeros_dropped_from": [n for i, n in enumerate(("A", "M1", "K")) if mask >> i & 1]}))
+                    break
+            except Exception as e:  # noqa: BLE001
+                out.append((f"verify-raises:{type(e).__name__}", {**d, "near_miss": mask}))
+                break
         # a proof for a different exchange (other b) must be rejected as well
         other = srp.Exchange(G, USER, code, salt, a, b + 1)
         if c.verify_servers_proof_bytes(other.M2_server):
